@@ -73,9 +73,21 @@ def r1_escaping(ctx):
                 if sp:
                     # split exactly at the index of the '>' (so "]]" stays in this section, ">" opens the next)
                     at = sp[0][3][1]
-                    good = bool(ew) and bytes_literal(ew[0][3][1]) == b"]]" and strip_wrappers(at)[0] == "pl" and call_is(strip_wrappers(at)[1], "next")
-                    pre = ew[0][3][0] if ew else None
-                    good = good and pre is not None and has_subterm(pre, lambda s: call_is(s, "index") and s[3][1][0] == "agg" and s[3][1][2] == "RangeTo" and s[3][1][3][0] == at)
+                    at0 = strip_wrappers(at)
+                    if at0[0] == "pl" and call_is(at0[1], "find") and "Iterator" in at0[1][2]:
+                        # `memchr_iter(b'>', s).find(|&gt| s[..gt].ends_with(b"]]"))`: the test lives in the predicate
+                        cl = [a for a in at0[1][3] if strip_wrappers(a)[0] == "closure"]
+                        cb = F.closure(strip_wrappers(cl[0])[1]) if cl else None
+                        good = False
+                        if cb is not None:
+                            for q in sym.walk(cb):
+                                rq = ret_of(q)
+                                if rq is not None and call_is(rq, "ends_with") and bytes_literal(rq[3][1]) == b"]]" and has_subterm(rq[3][0], lambda s2: call_is(s2, "index") and s2[3][1][0] == "agg" and s2[3][1][2] == "RangeTo" and strip_wrappers(s2[3][1][3][0])[0] in ("arg", "pl") and root_of(strip_wrappers(s2[3][1][3][0]))[1] == 2):
+                                    good = True
+                    else:
+                        good = bool(ew) and bytes_literal(ew[0][3][1]) == b"]]" and at0[0] == "pl" and call_is(at0[1], "next")
+                        pre = ew[0][3][0] if ew else None
+                        good = good and pre is not None and has_subterm(pre, lambda s: call_is(s, "index") and s[3][1][0] == "agg" and s[3][1][2] == "RangeTo" and s[3][1][3][0] == at)
                     st = [e for e in p if e[0] == "store" and is_self_field(e[2], "unprocessed")]
                     good = good and len(st) == 1 and has_subterm(st[0][3], lambda s: call_is(s, "split_at"))
                     split_ok = good if split_ok is None else (split_ok and good)
